@@ -32,6 +32,7 @@ def patch_porepy():
     install_scipy_wrappers()
     import porepy  # noqa: F401
 
+    _patch_hashing()
     for name, mod in list(sys.modules.items()):
         if mod is None or not name.startswith("porepy"):
             continue
@@ -42,6 +43,34 @@ def patch_porepy():
         if d.get("sps") is _sps:
             mod.sps = spsproxy
             _patched.append((mod, "sps", _sps))
+
+
+def _patch_hashing():
+    """sha256 of array buffers (operator keys) cannot digest object arrays: stub with a hash
+    of the printed content.  Hash keys are not the subject of any claimed property."""
+    import hashlib
+
+    import porepy.numerics.ad.operators as ops
+
+    from .sparse import SymSparse
+
+    real_sha = hashlib.sha256
+
+    def sha256(data=b"", **k):
+        if isinstance(data, _np.ndarray) and data.dtype == object:
+            data = repr(data.tolist()).encode()
+        return real_sha(data, **k)
+
+    if getattr(ops, "sha256", None) is real_sha:
+        ops.sha256 = sha256
+    orig = ops.SparseArray._compute_spmatrix_hash
+
+    def _hash(mat):
+        if isinstance(mat, SymSparse):
+            return f"SymSparse_{mat.shape}_" + real_sha(repr(mat.A_.tolist()).encode()).hexdigest()
+        return orig(mat)
+
+    ops.SparseArray._compute_spmatrix_hash = staticmethod(_hash)
 
 
 def start_trace():
